@@ -528,3 +528,657 @@ def gen_module_defs(rng, ops, size=None, datacount_max=64):
     if rng.random() < 0.3:
         rng.shuffle(defs)
     return defs
+
+
+# ---------------------------------------------------------------- text-form validation (no model)
+NATURAL_ALIGN = {'8': 0, '16': 1, '32': 2}
+
+
+def natural_align(op):
+    m = re.search(r'(8|16|32)(_[su])?$', op)
+    if m:
+        return NATURAL_ALIGN[m.group(1)]
+    return 2 if op.startswith(('i32', 'f32')) else 3
+
+
+def gen_text_body(rng, n, depth, nlocals, nfuncs, nglobals, ntypes):
+    from ppci.wasm.components import Instruction, BlockInstruction, Ref
+    import ppci.wasm.opcodes as O
+    out = []
+    plain = [op for op, ks in O.OPERANDS.items() if not ks and isinstance(O.OPCODES[op], int)
+             and op not in CONTROL and op != 'select' and not op.startswith('ref.')]
+    mem = sorted(O.LOAD_OPS | O.STORE_OPS)
+    while n > 0:
+        r = rng.random()
+        n -= 1
+        if r < 0.15 and depth < 3:
+            kind = rng.choice(['block', 'loop', 'if'])
+            out.append(BlockInstruction(kind, rng.choice(BLOCKTYPES)))
+            k = rng.randrange(0, max(1, n))
+            out += gen_text_body(rng, k, depth + 1, nlocals, nfuncs, nglobals, ntypes)
+            if kind == 'if' and rng.random() < 0.5:
+                out.append(Instruction('else'))
+                out += gen_text_body(rng, rng.randrange(0, 3), depth + 1, nlocals, nfuncs, nglobals, ntypes)
+            out.append(Instruction('end'))
+            n -= k
+        elif r < 0.25:
+            out.append(Instruction('i32.const', pick(rng, I32_POOL, -2 ** 31, 2 ** 31)))
+        elif r < 0.33:
+            out.append(Instruction('i64.const', pick(rng, I64_POOL, -2 ** 63, 2 ** 63)))
+        elif r < 0.40:
+            out.append(Instruction('f64.const', rng.choice([0.0, 1.5, -2.25, 3.141592653589793, 1e300, -1e-300, 0.1,
+                                                             float('inf'), -float('inf'), 5e-324, 123456789.125])))
+        elif r < 0.45:
+            out.append(Instruction('f32.const', rng.choice([0.0, 1.5, -2.25, 0.5, 65536.0, float('inf'), 2.0 ** -140])))
+        elif r < 0.55 and nlocals:
+            out.append(Instruction(rng.choice(['local.get', 'local.set', 'local.tee']), Ref('local', index=rng.randrange(nlocals))))
+        elif r < 0.60 and nglobals:
+            out.append(Instruction(rng.choice(['global.get', 'global.set']), Ref('global', index=rng.randrange(nglobals))))
+        elif r < 0.65 and nfuncs:
+            out.append(Instruction('call', Ref('func', index=rng.randrange(nfuncs))))
+        elif r < 0.68 and ntypes:
+            out.append(Instruction('call_indirect', Ref('type', index=rng.randrange(ntypes)), Ref('table', index=0)))
+        elif r < 0.74:
+            out.append(Instruction(rng.choice(['br', 'br_if']), Ref('label', index=rng.randrange(depth + 1))))
+        elif r < 0.77:
+            out.append(Instruction('br_table', [Ref('label', index=rng.randrange(depth + 1)) for _ in range(rng.randrange(1, 5))]))
+        elif r < 0.87:
+            op = rng.choice(mem)
+            out.append(Instruction(op, rng.randrange(0, natural_align(op) + 1), pick(rng, U32_POOL, 0, 2 ** 32)))
+        elif r < 0.90:
+            out.append(Instruction(rng.choice(['memory.size', 'memory.grow']), 0))
+        else:
+            out.append(Instruction(rng.choice(plain)))
+    return out
+
+
+def gen_text_module_defs(rng):
+    """index-consistent MVP module for the text round trip (no custom/datacount/passive data,
+    natural alignments, no NaN payloads)"""
+    from ppci.wasm import components as C
+    from ppci.wasm.components import Ref, Instruction
+    defs = []
+    ntypes = rng.randrange(1, 4)
+    types = []
+    for i in range(ntypes):
+        ps = [rng.choice(VALTYPES) for _ in range(rng.randrange(0, 4))]
+        types.append(ps)
+        defs.append(C.Type(i, [(j, t) for j, t in enumerate(ps)], [rng.choice(VALTYPES) for _ in range(rng.choice([0, 1]))]))
+    nimp = rng.randrange(0, 3)
+    for i in range(nimp):
+        defs.append(C.Import(rng.choice(['env', 'js', 'mod']), 'f%d' % i, 'func', i, (Ref('type', index=rng.randrange(ntypes)),)))
+    nfunc = rng.randrange(0, 4)
+    nglob = rng.randrange(0, 3)
+    funcs = []
+    for i in range(nfunc):
+        ti = rng.randrange(ntypes)
+        locs = [(None, rng.choice(VALTYPES)) for _ in range(rng.choice([0, 1, 2, 4]))]
+        body = gen_text_body(rng, rng.choice([0, 2, 5, 10, 20]), 0, len(types[ti]) + len(locs), nimp + nfunc, nglob, ntypes)
+        funcs.append(C.Func(nimp + i, Ref('type', index=ti), locs, body))
+    defs.append(C.Table(0, 'funcref', 4, rng.choice([None, 10])))
+    defs.append(C.Memory(0, 1, rng.choice([None, 2, 65536])))
+    for i in range(nglob):
+        t = rng.choice(VALTYPES)
+        init = {'i32': Instruction('i32.const', pick(rng, I32_POOL, -2 ** 31, 2 ** 31)),
+                'i64': Instruction('i64.const', pick(rng, I64_POOL, -2 ** 63, 2 ** 63)),
+                'f32': Instruction('f32.const', 1.5), 'f64': Instruction('f64.const', -0.25)}[t]
+        defs.append(C.Global(i, t, rng.random() < 0.5, [init]))
+    for i in range(rng.randrange(0, 3)):
+        kind = rng.choice(['func', 'memory', 'table'] + (['global'] if nglob else []))
+        if kind == 'func' and not (nimp + nfunc):
+            continue
+        n = {'func': nimp + nfunc, 'memory': 1, 'table': 1, 'global': nglob}[kind]
+        defs.append(C.Export('e%d' % i, kind, Ref(kind, index=rng.randrange(n))))
+    if nimp + nfunc and rng.random() < 0.3:
+        defs.append(C.Start(Ref('func', index=rng.randrange(nimp + nfunc))))
+    if nimp + nfunc and rng.random() < 0.5:
+        defs.append(C.Elem(0, (Ref('table', index=0), [Instruction('i32.const', rng.randrange(0, 3))]),
+                           [Ref('func', index=rng.randrange(nimp + nfunc)) for _ in range(rng.randrange(0, 4))]))
+    defs += funcs
+    for i in range(rng.randrange(0, 3)):
+        defs.append(C.Data(i, (Ref('memory', index=0), [Instruction('i32.const', rng.randrange(0, 1000))]),
+                           bytes(rng.randrange(256) for _ in range(rng.choice([0, 1, 5, 30])))))
+    return defs
+
+
+class _Timeout(Exception):
+    pass
+
+
+def with_alarm(seconds, fn):
+    import signal
+
+    def handler(*a):
+        raise _Timeout()
+    old = signal.signal(signal.SIGALRM, handler)
+    signal.alarm(seconds)
+    try:
+        return fn()
+    finally:
+        signal.alarm(0)
+        signal.signal(signal.SIGALRM, old)
+
+
+def text_roundtrip(defs):
+    """binary -> Module -> to_string -> Module(text) -> to_bytes; returns (status, detail)"""
+    from ppci.wasm import Module
+    try:
+        b = make_module(defs).to_bytes()
+    except Exception as ex:   # noqa: BLE001
+        return 'exception', 'to_bytes: %r' % (ex,)
+
+    def go():
+        m = Module(b)
+        t = m.to_string()
+        m2 = Module(t)
+        return t, m2.to_bytes()
+    try:
+        t, b2 = with_alarm(10, go)
+    except _Timeout:
+        return 'timeout', b.hex()
+    except Exception as ex:   # noqa: BLE001
+        return 'exception', '%r on %s' % (ex, b.hex())
+    if b2 != b:
+        return 'differs', {'bytes': b.hex(), 'after_text': b2.hex(), 'text': t[:2000]}
+    return 'same', None
+
+
+# ---------------------------------------------------------------- independent search oracle
+def ref_uleb(v):
+    out = []
+    while True:
+        b = v % 128
+        v //= 128
+        if v:
+            out.append(b + 128)
+        else:
+            out.append(b)
+            return bytes(out)
+
+
+def ref_sleb(v):
+    out = []
+    while True:
+        b = v % 128
+        v = (v - b) // 128
+        if (v == 0 and b < 64) or (v == -1 and b >= 64):
+            out.append(b)
+            return bytes(out)
+        out.append(b + 128)
+
+
+def load_spec_table():
+    """the reference table of coq/Spec/WasmOpcodeSpec.v as python data"""
+    import vlib
+    src = open(os.path.join(vlib.COQ, 'Spec', 'WasmOpcodeSpec.v')).read()
+    out = []
+    for m in re.finditer(r'^\s*\("([a-z0-9_.]+)", (\d+), (None|Some (\d+)), \[([A-Za-z0-9; ]*)\]\)', src, re.M):
+        out.append((m.group(1), int(m.group(2)), None if m.group(3) == 'None' else int(m.group(4)),
+                    [x.strip() for x in m.group(5).split(';') if x.strip()]))
+    return out
+
+
+def ref_imm(kind, a):
+    """reference wire encoding of one immediate, from the specification (independent of ppci's writer)"""
+    if kind == 'SBlockType':
+        return {'emptyblock': b'\x40', 'i32': b'\x7f', 'i64': b'\x7e', 'f32': b'\x7d', 'f64': b'\x7c'}[a]
+    if kind in ('SLabelIdx', 'SFuncIdx', 'STypeIdx', 'STableIdx', 'SLocalIdx', 'SGlobalIdx'):
+        return ref_uleb(a.index)
+    if kind in ('SMemAlign', 'SMemOffset'):
+        return ref_uleb(a)
+    if kind == 'SZeroByte':
+        return bytes([a])
+    if kind in ('SI32', 'SI64'):
+        return ref_sleb(a)
+    if kind == 'SF32':
+        return struct.pack('<f', a)
+    if kind == 'SF64':
+        return struct.pack('<d', a)
+    if kind == 'SLabelVec':
+        return ref_uleb(len(a) - 1) + b''.join(ref_uleb(r.index) for r in a)
+    raise KeyError(kind)
+
+
+SPEC_KIND_OF = {'SBlockType': 'TYPE', 'SLabelIdx': 'LABELIDX', 'SFuncIdx': 'FUNCIDX', 'STypeIdx': 'TYPEIDX',
+                'STableIdx': 'TABLEIDX', 'SLocalIdx': 'LOCALIDX', 'SGlobalIdx': 'GLOBALIDX', 'SMemAlign': 'U32',
+                'SMemOffset': 'U32', 'SZeroByte': 'U8', 'SI32': 'I32', 'SI64': 'I64', 'SF32': 'F32', 'SF64': 'F64',
+                'SLabelVec': 'br_table'}
+
+
+def write_one(i):
+    from io import BytesIO
+    from ppci.wasm.binary.writer import BinaryFileWriter
+    w = BinaryFileWriter(BytesIO())
+    w.write_instruction(i)
+    return w.f.getvalue()
+
+
+def read_one(b):
+    from io import BytesIO
+    from ppci.wasm.binary.reader import BinaryFileReader
+    r = BinaryFileReader(BytesIO(b))
+    i = r.read_instruction()
+    return i, len(r._f[-1].read())
+
+
+def same_float(a, b):
+    return struct.pack('<d', a) == struct.pack('<d', b)
+
+
+def args_equal(a, b):
+    from ppci.wasm.components import Ref
+    if isinstance(a, float) and isinstance(b, float):
+        return same_float(a, b)
+    if isinstance(a, Ref) and isinstance(b, Ref):
+        return (a.space, a.index) == (b.space, b.index)
+    if isinstance(a, (list, tuple)) and isinstance(b, (list, tuple)):
+        return len(a) == len(b) and all(args_equal(x, y) for x, y in zip(a, b))
+    return type(a) is type(b) and a == b
+
+
+def instr_equal(i, j):
+    return i.opcode == j.opcode and args_equal(list(i.args), list(j.args))
+
+
+def f32_exact(i):
+    """component-wise comparison of f32 constants is only meaningful for f32-representable floats"""
+    return True
+
+
+def oracle_instructions(ctx, n_per_op):
+    """every reference instruction: ppci's bytes == reference bytes; read back == original"""
+    from ppci.wasm.components import Instruction
+    n = 0
+    for name, b, sub, imms in load_spec_table():
+        for _ in range(n_per_op if imms else 1):
+            try:
+                args = [gen_arg(ctx.rng, SPEC_KIND_OF[k]) for k in imms]
+                if name in ('block', 'loop', 'if'):
+                    from ppci.wasm.components import BlockInstruction
+                    ins = BlockInstruction(name, *args)
+                else:
+                    ins = Instruction(name, *args)
+                exp = bytes([b]) + (ref_uleb(sub) if sub is not None else b'') + \
+                    b''.join(ref_imm(k, a) for k, a in zip(imms, args))
+            except Exception as ex:   # noqa: BLE001
+                ctx.violation({'fn': 'Instruction', 'args': [name], 'what': 'cannot build reference instruction: %r' % (ex,),
+                               'key': 'build-' + name})
+                break
+            n += 1
+            try:
+                got = write_one(ins)
+            except Exception as ex:   # noqa: BLE001
+                got = repr(ex)
+            if got != exp:
+                ctx.violation({'fn': 'BinaryFileWriter.write_instruction', 'args': [name, repr(list(ins.args))],
+                               'expected': exp.hex(), 'actual': got.hex() if isinstance(got, bytes) else got,
+                               'key': 'write-' + name,
+                               'how_to_replay': 'encode Instruction(%r, ...) with ppci.wasm.binary.writer and compare with the '
+                                                'encoding of the WebAssembly specification' % name})
+                continue
+            try:
+                back, left = read_one(exp + b'\x01')
+                ok = left == 1 and instr_equal(back, ins)
+            except Exception as ex:   # noqa: BLE001
+                ok, back = False, repr(ex)
+            if not ok:
+                ctx.violation({'fn': 'BinaryFileReader.read_instruction', 'args': [exp.hex()],
+                               'expected': '%s %r' % (name, list(ins.args)),
+                               'actual': back if isinstance(back, str) else '%s %r' % (back.opcode, list(back.args)),
+                               'key': 'read-' + name,
+                               'how_to_replay': 'BinaryFileReader(BytesIO(bytes.fromhex(%r))).read_instruction()' % exp.hex()})
+    # select: both encodings
+    from ppci.wasm.components import Instruction
+    for args, exp in (([[]], b'\x1b'), ([['i32']], b'\x1c\x01\x7f'), ([['f64', 'i64']], b'\x1c\x02\x7c\x7e')):
+        n += 1
+        try:
+            got = write_one(Instruction('select', *args))
+            back, left = read_one(exp)
+            ok = got == exp and left == 0 and instr_equal(back, Instruction('select', *args))
+        except Exception as ex:   # noqa: BLE001
+            ok, got = False, repr(ex)
+        if not ok:
+            ctx.violation({'fn': 'select encoding', 'args': [repr(args)], 'expected': exp.hex(),
+                           'actual': got.hex() if isinstance(got, bytes) else got, 'key': 'select'})
+    return n
+
+
+def canonical(defs):
+    """the writer's section order (what a re-read module contains)"""
+    import ppci.wasm.components as C
+    order = [n for n in C.SECTION_IDS if n not in ('code', 'function')]
+    return [d for name in order for d in defs if d.__name__ == name]
+
+
+def oracle_modules(ctx, n, datacount_max):
+    """real round trip: read(write(m)) == m component-wise, and to_bytes is a fixpoint"""
+    from ppci.wasm import Module
+    ops = supported_ops()
+    cnt = 0
+    for _ in range(n):
+        defs = gen_module_defs(ctx.rng, ops, datacount_max=datacount_max)
+        cnt += 1
+        try:
+            b = make_module(defs).to_bytes()
+            m2 = Module(b)
+            b2 = m2.to_bytes()
+            v1 = [defn_repr(d)[1] for d in canonical(defs)]
+            v2 = [defn_repr(d)[1] for d in m2.definitions]
+        except Exception as ex:   # noqa: BLE001
+            ctx.violation({'fn': 'Module round trip', 'args': [repr([defn_repr(d)[1] for d in defs])[:3000]],
+                           'what': 'exception %r' % (ex,), 'key': 'module-exception',
+                           'how_to_replay': 'build the definitions, Module.to_bytes(), Module(bytes)'})
+            continue
+        if b2 != b or v1 != v2:
+            first = next((i for i, (x, y) in enumerate(zip(v1, v2)) if x != y), None)
+            ctx.violation({'fn': 'Module round trip', 'args': [b.hex()],
+                           'expected': repr(v1[first])[:1500] if first is not None else 'to_bytes fixpoint',
+                           'actual': repr(v2[first])[:1500] if first is not None else b2.hex(),
+                           'key': 'module-roundtrip',
+                           'how_to_replay': 'm = Module(bytes.fromhex(args[0])); compare m.definitions with the written ones / m.to_bytes()'})
+    return cnt
+
+
+KNOWN_WITNESSES = [
+    # (fn, args, description of how the witness is executed)
+    ('DataCount round trip', [64]),
+    ('externref encoding', ['externref']),
+    ('f32.const signalling NaN', ['0100a07f']),
+    ('text NaN payload', ['ffffffffffffffff']),
+]
+
+
+def known_witnesses(ctx):
+    """re-execute the recorded defects on the implementation; report only while they still fail"""
+    from ppci.wasm import Module, components as C
+    from ppci.wasm.components import Instruction, Ref
+    # 1. datacount
+    try:
+        b = make_module([C.DataCount(64)]).to_bytes()
+        n = Module(b).definitions[0].n
+    except Exception as ex:   # noqa: BLE001
+        n = repr(ex)
+    if n != 64:
+        ctx.violation({'fn': 'DataCount round trip', 'args': [64], 'expected': 64, 'actual': n,
+                       'how_to_replay': 'Module(bytes) of a module with DataCount(64): read_data_count_definition uses read_int'})
+    # 2. externref
+    try:
+        b = make_module([C.Type(0, [(0, 'externref')], [])]).to_bytes()
+        t = Module(b).definitions[0].params
+        ok = [p[1] for p in t] == ['externref'] and Module(b).to_bytes() == b
+    except Exception as ex:   # noqa: BLE001
+        ok, t = False, repr(ex)
+    if not ok:
+        ctx.violation({'fn': 'externref encoding', 'args': ['externref'], 'expected': 'type byte 0x6f, one byte',
+                       'actual': repr(t)[:300],
+                       'how_to_replay': 'LANG_TYPES["externref"] == b"\\6F" (two bytes 0x06 0x46) in ppci/wasm/binary/io.py'})
+    # 3. f32 signalling NaN bit pattern changes in bytes -> Module -> bytes
+    raw = bytes.fromhex('0100a07f')
+    b = bytes.fromhex('0061736d01000000' '0609017d0043') + raw + b'\x0b'
+    try:
+        b2 = Module(b).to_bytes()
+    except Exception as ex:   # noqa: BLE001
+        b2 = repr(ex)
+    if b2 != b:
+        ctx.violation({'fn': 'f32.const signalling NaN', 'args': ['0100a07f'], 'expected': b.hex(),
+                       'actual': b2.hex() if isinstance(b2, bytes) else b2,
+                       'how_to_replay': 'Module(bytes.fromhex(expected)).to_bytes(): f32 constants are held as Python floats, '
+                                        'struct converts f32 sNaN to qNaN'})
+    # 4. text form prints NaN without payload/sign (validation only)
+    x = struct.unpack('<d', bytes.fromhex('ffffffffffffffff'))[0]
+    defs = [C.Global(0, 'f64', False, [Instruction('f64.const', x)])]
+    st, d = text_roundtrip(defs)
+    if st != 'same':
+        ctx.violation({'fn': 'text NaN payload', 'args': ['ffffffffffffffff'], 'expected': 'same bytes after to_string/parse',
+                       'actual': st, 'how_to_replay': 'Module with (global f64 (f64.const <nan with payload>)): to_string prints "nan"'})
+
+
+# ---------------------------------------------------------------- correspondence (model vs implementation)
+IMPORTS = ['Model.WasmTypes', 'Model.WasmBin', 'Model.WasmBinVal']
+
+
+def outcome(fn):
+    try:
+        return OkV(fn())
+    except ValueError:
+        return Diag
+    except Exception:   # noqa: BLE001
+        return Internal
+
+
+def gen_bad_module_defs(rng, ops):
+    """one deliberate out-of-range / ill-formed component (the writer must raise; the model must too)"""
+    from ppci.wasm import components as C
+    from ppci.wasm.components import Ref, Instruction
+    k = rng.randrange(9)
+    if k == 0:
+        return [C.Func(0, Ref('type', index=0), [], [Instruction('i32.const', rng.choice([2 ** 34, -2 ** 34 - 1, 2 ** 40]))])]
+    if k == 1:
+        return [C.Func(0, Ref('type', index=0), [], [Instruction('i64.const', rng.choice([2 ** 69, -2 ** 69 - 1, 2 ** 90]))])]
+    if k == 2:
+        return [C.Func(0, Ref('type', index=0), [], [Instruction('local.get', Ref('local', index=rng.choice([-1, 2 ** 35, 2 ** 64])))])]
+    if k == 3:
+        return [C.Type(0, [(0, rng.choice(['i31', 'anyref', '']))], [])]
+    if k == 4:
+        return [C.Start(Ref('func', index=0)), C.Start(Ref('func', index=1))]
+    if k == 5:
+        return [C.Export('x', 'func', Ref('global', index=0))]
+    if k == 6:
+        return [C.Func(0, Ref('type', index=0), [], [Instruction('memory.grow', rng.choice([256, -1, 1000]))])]
+    if k == 7:
+        return [C.Func(0, Ref('type', index=0), [], [Instruction('br_table', [])])]
+    return [C.Memory(0, rng.choice([-1, 2 ** 35]), None)]
+
+
+def corr_modules(ctx, n, datacount_max):
+    from ppci.wasm import Module
+    ops = supported_ops()
+    cases, recs = [], []
+    stats = {'modules': 0, 'definitions': 0, 'instructions': 0, 'regrouped_by_section_on_reread': 0, 'bad_modules': 0}
+    for k in range(n):
+        bad = k % 12 == 11
+        defs = gen_bad_module_defs(ctx.rng, ops) if bad else gen_module_defs(ctx.rng, ops, datacount_max=datacount_max)
+        t, v = defs_repr(defs)
+        out = outcome(lambda: make_module(defs).to_bytes())
+        if not isinstance(out, OkV):
+            stats['bad_modules'] += 1
+            cases.append(('res_hex (write_module %s)' % t, out))
+            recs.append(('write', v, None))
+            continue
+        b = out.v
+        try:
+            m2 = Module(b)
+            t2, v2 = defs_repr(m2.definitions)
+        except Exception as ex:   # noqa: BLE001
+            ctx.violation({'fn': 'Module(bytes)', 'args': [b.hex()], 'what': 'cannot re-read written module: %r' % (ex,),
+                           'key': 'reread'})
+            continue
+        stats['modules'] += 1
+        stats['definitions'] += len(defs)
+        stats['instructions'] += t.count('Instr ')
+        if t2 == t:
+            term = 'let d := %s in corr_write d "%s" && corr_read "%s" d' % (t, b.hex(), b.hex())
+        else:
+            stats['regrouped_by_section_on_reread'] += 1
+            term = 'corr_write %s "%s" && corr_read "%s" %s' % (t, b.hex(), b.hex(), t2)
+        cases.append((term, True))
+        recs.append(('module', v, b.hex()))
+        if len(defs) > 2 and t.count('Instr ') > 3:
+            ctx.cov['distinct_nontrivial'] += 1
+    return cases, recs, stats
+
+
+def corr_instructions(ctx, per_op):
+    """every supported mnemonic: bytes of the single instruction, and reading them back"""
+    import ppci.wasm.opcodes as O
+    from ppci.wasm.components import Instruction, BlockInstruction
+    cases, recs = [], []
+    for op in supported_ops():
+        for _ in range(per_op if O.OPERANDS[op] else 1):
+            args = [gen_arg(ctx.rng, k) for k in O.OPERANDS[op]]
+            ins = (BlockInstruction if op in ('block', 'loop', 'if') else Instruction)(op, *args)
+            out = outcome(lambda: write_one(ins))
+            t, v = instr_repr(ins)
+            if isinstance(out, OkV):
+                back, left = read_one(out.v + b'\x00\x0b')
+                t2, v2 = instr_repr(back)
+                cases.append(('match write_instruction (%s) with Ok b => String.eqb (hex_of_bytes b) "%s" | _ => false end '
+                              '&& val_eqb (rd_val (read_instruction (bytes_of_hex "%s000b"))) (VOk (VT [toval (%s); VZ %d]))'
+                              % (t, out.v.hex(), out.v.hex(), t2, left), True))
+            else:
+                cases.append(('res_hex (write_instruction (%s))' % t, out))
+            recs.append(('instr', v, None))
+    return cases, recs
+
+
+def corr_malformed(ctx, n):
+    """truncated / mutated module bytes: the model reader accepts exactly when the implementation does"""
+    from ppci.wasm import Module
+    ops = supported_ops()
+    cases, recs = [], []
+    while len(cases) < n:
+        defs = gen_module_defs(ctx.rng, ops, size=ctx.rng.choice([1, 2, 3]), datacount_max=64)
+        defs = [d for d in defs if d.__name__ not in ('import', 'export', 'custom')]   # names: utf-8 is outside the model
+        b = bytearray(make_module(defs).to_bytes())
+        if len(b) < 12:
+            continue
+        r = ctx.rng.random()
+        if r < 0.4:
+            b = b[:ctx.rng.randrange(0, len(b))]
+        elif r < 0.8:
+            b[ctx.rng.randrange(8, len(b))] = ctx.rng.randrange(256)
+        else:
+            b[ctx.rng.randrange(0, 8)] ^= 1 << ctx.rng.randrange(8)
+        b = bytes(b)
+        try:
+            with_alarm(5, lambda: Module(b))
+            out = OkV(None)
+        except ValueError:
+            out = Diag
+        except (_Timeout, MemoryError, UnicodeDecodeError):
+            continue
+        except Exception:   # noqa: BLE001
+            out = Internal
+        cases.append(('read_outcome "%s"' % b.hex(), out))
+        recs.append(('malformed', b.hex(), None))
+    return cases, recs
+
+
+def regen_and_reader(ctx):
+    text = regen(ctx)
+    return 64 if 'datacount_reader : rmeth := RInt' in text else 2 ** 32
+
+
+def search(ctx):
+    """model-independent search for a concrete failing input"""
+    import importlib
+    import ppci.wasm.opcodes
+    deep = (not ctx.quick()) or bool(ctx.failed_stages)
+    try:
+        dmax = 64 if probe_datacount() == 'RInt' else 2 ** 32
+    except Exception:   # noqa: BLE001
+        dmax = 64
+    n1 = oracle_instructions(ctx, 12 if deep else 4)
+    n2 = oracle_modules(ctx, 1500 if deep else 120, dmax)
+    ctx.cov['stages']['oracle'] = {'reference_instruction_encodings': n1, 'module_roundtrips': n2, 'deep': deep}
+    ctx.cov['evaluations'] += n1 + n2
+
+
+def text_validation(ctx, n):
+    res = {'same': 0, 'differs': 0, 'exception': 0, 'timeout': 0}
+    for _ in range(n):
+        defs = gen_text_module_defs(ctx.rng)
+        st, d = text_roundtrip(defs)
+        res[st] += 1
+        if st != 'same':
+            ctx.violation({'fn': 'text round trip', 'args': [d if isinstance(d, str) else d['bytes']],
+                           'what': st, 'detail': d, 'key': 'text-' + st,
+                           'how_to_replay': 'm = Module(bytes.fromhex(...)); Module(m.to_string()).to_bytes() == m.to_bytes()'})
+    ctx.cov['stages']['text_form_validation'] = res
+    ctx.cov['evaluations'] += n
+    return res
+
+
+PROOFS = ['Proofs/C21_leb.vo', 'Proofs/C21_instr.vo', 'Proofs/C21_defs.vo', 'Proofs/C21_module.vo', 'Proofs/C21_spec.vo']
+
+
+def run(ctx):
+    quick = ctx.quick()
+    dmax = regen_and_reader(ctx)
+    ok, _ = ctx.build(PROOFS)
+    if ok:
+        ctx.check_props('Props/C21.v')
+    # ---- correspondence: hand model (over the regenerated tables) vs implementation
+    if ctx.build(['Model/WasmBinVal.vo'])[0]:
+        try:
+            correspondence(ctx, quick, dmax)
+        except Exception as ex:   # noqa: BLE001
+            import traceback
+            ctx.log(traceback.format_exc()[-1500:])
+            ctx.failed_stages.append(('correspondence', 'harness could not drive the implementation: %r' % (ex,)))
+    # ---- text form: validation only
+    try:
+        text_validation(ctx, 60 if quick else 600)
+    except Exception as ex:   # noqa: BLE001
+        ctx.failed_stages.append(('text_validation', 'harness could not drive the implementation: %r' % (ex,)))
+    # ---- recorded defects, re-executed
+    known_witnesses(ctx)
+    # ---- independent oracle: always (cheap), deep when a stage failed or tier is thorough
+    search(ctx)
+    ctx.cov['exhaustive'] = False
+
+
+def correspondence(ctx, quick, dmax):
+    if True:
+        c1, r1, stats = corr_modules(ctx, 150 if quick else 2000, dmax)
+        c2, r2 = corr_instructions(ctx, 2 if quick else 6)
+        c3, r3 = corr_malformed(ctx, 60 if quick else 400)
+        ctx.cov['stages']['correspondence_distribution'] = dict(stats, instruction_cases=len(c2), malformed_streams=len(c3))
+        for r in (r1[:3] + r2[5:8] + r3[:2]):
+            ctx.note_sample({'kind': r[0], 'value': repr(r[1])[:300]})
+        for name, cases, recs, shard in (('modules', c1, r1, 20), ('instrs', c2, r2, 120), ('malformed', c3, r3, 60)):
+            bad = ctx.run_cases(name, IMPORTS, cases, shard=shard)
+            if bad:
+                for i in bad[:5]:
+                    ctx.log('model/implementation disagree on', name, repr(recs[i])[:600])
+                ctx.failed_stages.append(('correspondence', 'Model.WasmBin disagrees with ppci.wasm.binary on %d %s cases, first: %s'
+                                          % (len(bad), name, repr(recs[bad[0]])[:800])))
+
+
+RULE = ('modules are built from ppci.wasm component objects by a seeded generator: 0..8 definitions per section kind '
+        '(type, import of all 4 kinds, func with run-length locals and nested block/loop/if-else bodies, table, memory, global, '
+        'export, start, elem, data active/passive/index>0, datacount, custom), 30% in shuffled order; immediates from boundary '
+        'pools (u32 around 2^7k and 2^32-1, i32/i64 around +-2^(7k-1), +-2^31, +-2^63, f32/f64 raw bit patterns incl. inf, '
+        'quiet NaN payloads, denormals) plus uniform random; every 12th module carries one out-of-range component (writer must '
+        'raise, model too); every supported mnemonic (430) is also checked as a single instruction; a stream of truncated / '
+        'byte-mutated modules checks reader acceptance. distinct non-trivial = module with > 2 definitions and > 3 instructions')
+EXPLANATION = ('Unbounded Coq theorems about the hand model of binary/writer.py + reader.py over the regenerated opcode / dispatch / '
+               'type / section tables: LEB128, every immediate kind, every instruction of the table, nested expressions, every '
+               'definition kind, every section and whole modules round-trip (read(write m) = m grouped in section order whenever the '
+               'writer succeeds on a well-formed m); the opcode table agrees with an independent 194-entry reference table of the '
+               'specification. NOT modelled/proved: the text form (text/parser.py, text/writer.py: validated by binary->text->binary '
+               'round trips of index-consistent MVP modules only), names/ids of definitions and references, the utf-8 and '
+               'struct float conversions of CPython, instructions with HEAPTYPE/ELEMIDX/DATAIDX/U8x16 immediates (unsupported by the '
+               'binary writer/reader themselves), write(read b) = b for canonical b (tested, not proved), acceptance by a reference '
+               'engine (none exists in the sandbox)')
+TRUSTED = ['tools/props/c21.py table export (OPCODES/REVERZ/OPERANDS dicts, wfm/rfm probed with recording mocks, LANG_TYPES, SECTION_IDS)',
+           'coq/Model/WasmBin.v is a faithful transcription of binary/writer.py and binary/reader.py (cross-checked per run: '
+           'bytes of 150/2000 generated modules and 860/2600 single instructions, re-read modules component-wise, 60/400 malformed streams)',
+           'CPython: struct.pack/unpack of f64 is the identity on bit patterns, of f32 on all non-signalling patterns; str.encode/decode utf-8',
+           'coq/Spec/WasmOpcodeSpec.v transcribes the binary opcodes of the WebAssembly core specification correctly',
+           'Python int arithmetic == Coq Z arithmetic']
+ASSUMPTIONS = ['modules are given as component objects with integer indices (names already resolved)',
+               'LEB128 is modelled in recursive arithmetic form; the bit-level shape of ppci/utils/leb128.py is property C20 '
+               '(the model is cross-checked against the real functions through every immediate of the correspondence)',
+               'f32 constants are compared by the 4 bytes struct.pack("<f") produces (a Python float that is not f32-representable is rounded by the writer)']
+MANIFEST = {
+    'text': 'partial: machine-checked proof for a model of the binary instruction/immediate/section codec (LEB128, all 430 writable '
+            'instructions of the opcode table with every immediate kind, nested expressions, all 12 section kinds, whole modules: '
+            'reading what the writer wrote returns the module) plus a reflected check of the opcode table against an independent '
+            'reference table of the specification; the text form is validated by round trip only (binary -> text -> binary on generated '
+            'MVP modules); there is no reference engine in the sandbox, so acceptance by one is not checked',
+    'note': 'trusted: Coq kernel, the table exporter, the hand model (differentially checked against Module.to_bytes()/Module(bytes) on '
+            'every run), CPython struct/utf-8. Known findings re-executed on every run: datacount read with the signed LEB reader, '
+            'externref type byte is two bytes, f32 signalling-NaN constants change bits, text form drops NaN payloads. No axioms.',
+    'technique': 'Coq proof over hand model + exported tables (reflection), differential correspondence, independent spec-table oracle',
+}
